@@ -159,7 +159,8 @@ def oracle_gated(c, o, io_):
         want = o["written"][idx].decode("utf-8", "replace")
         if o["cap"][idx] != want:
             return "%s: captured %r but the command wrote %r" % (s, o["cap"][idx][:50], want[:50])
-        ho, he = hidden(c["hide"], c.get("explicit", True))
+        # an asynchronous run always hides (documented: "Always hide if async"); explicit streams are still un-hidden
+        ho, he = hidden(True if c.get("async") else c["hide"], c.get("explicit", True))
         hid = ho if s == "out" else he
         if not (c["has_in"] and s == "out"):  # echo of stdin shares the out stream
             if o["mirror"][idx] != ("" if hid else want):
